@@ -434,7 +434,9 @@ class _MExpr:
     def __and__(self, other):
         return And(self, other)
 
-    __rand__ = __and__
+    def __rand__(self, other):
+        # other & self: keep the operands in the order they were written
+        return And(other, self)
 
     def __or__(self, other):
         return Or(self, other)
@@ -551,7 +553,9 @@ class _MType:
     def __and__(self, other):
         return And(self, other)
 
-    __rand__ = __and__
+    def __rand__(self, other):
+        # other & self: keep the operands in the order they were written
+        return And(other, self)
 
     def __or__(self, other):
         return Or(self, other)
